@@ -51,6 +51,16 @@ def gen_record(rng, first=None):
         from ..impl import record_args
         r = bytearray(record_args(rng.randrange(1 << 40), [rng.randrange(1 << 64) for _ in range(4)],
                                   rng.choice([0, 1, 0x1234, (1 << 64) - 1]), rng.randrange(1 << 32), rng.randrange(16)))
+    if first is None and rng.random() < 0.12:
+        # a record that BEGINS with (or carries at a word boundary) one of the byte strings the reader source mentions — a
+        # magic, a tag, a marker: it is still a record (never the first one: a leading zero byte is known finding K1)
+        from .. import mined
+        consts = mined.bytes_constants(['pykdebugparser/kd_buf_parser.py'])
+        if consts:
+            k = rng.choice(consts)
+            off = rng.choice([0, 0, 0, 8, 40, 48])
+            r[off:off + len(k)] = k[:64 - off]
+            r = r[:64]
     if first == 'nonzero' and r[0] == 0:
         r[0] = rng.randrange(1, 256)
     if first == 'zero':
